@@ -114,6 +114,8 @@ def self_gated(ctx, chain, e):
 def run(ctx):
     from ._shared import ragged_opener_mode_agreement
     ragged_opener_mode_agreement(ctx, 'D4')
+    from ._shared import mode_setters_refuse_by_value_only
+    mode_setters_refuse_by_value_only(ctx, 'D6')
     repo, E = ctx.repo, ctx.E
     GA = GateAnalysis(ctx, ModeGate())
     ents = entries(ctx)
